@@ -1104,9 +1104,12 @@ class CircuitSerializer(serializer.Serializer):
             tags = [
                 deserialized_constants[tag_index]
                 for tag_index in operation_proto.tag_indices
-                if deserialized_constants[tag_index] not in op.tags
-                and deserialized_constants[tag_index] is not None
+                if deserialized_constants[tag_index] is not None
             ]
+            # Tags that were already restored from gate fields (such as is_physical_z)
+            # are usually listed as well: the list determines the order of the tags.
+            tags = [tag for tag in op.tags if tag not in tags] + tags
+            op = op.untagged
         else:
             tags = []
             for tag in operation_proto.tags:
